@@ -44,6 +44,17 @@ theorem C29_path_roundtrip (W : Char → Bool) (hash : Bool) (hW : WordClass W) 
   simp only [evalJsonPath, parsePath]
   exact parseSegs_segs W hash hW keys h _ (Nat.le_refl _)
 
+/-- **Round trip of the JSON1 spelling.**  What `SQLiteBuilder.eval_json_path` writes when JSON1 is available (a negative index as `[#-N]`)
+    is read back to the same keys by the parser whose regex has `#?` — `py_json_contains` gets exactly this text -/
+theorem C29_path_roundtrip_j1 (W : Char → Bool) (hW : WordClass W) (keys : List Key) (h : ∀ k ∈ keys, k.pathSafe = true) :
+    parsePath W true (evalJsonPathJ1 W keys) = some keys := by
+  simp only [evalJsonPathJ1, parsePath]
+  exact parseSegs_segsJ1 W hW keys h _ (Nat.le_refl _)
+
+/-- the current source pairs the two: the `[#-N]` spelling is written only by a tree whose regex reads it -/
+theorem C29_src_j1_pair : JsonLits.json1NegativeHash = true → srcHash = true := by
+  decide
+
 /-- the full statement (no guard) -/
 def C29_path_roundtrip_full : Prop :=
   ∀ (W : Char → Bool) (hash : Bool), WordClass W → ∀ keys : List Key, parsePath W hash (evalJsonPath W keys) = some keys
@@ -72,6 +83,9 @@ theorem C29_path_roundtrip_full_false : ¬ C29_path_roundtrip_full := by
   exact absurd this (by simp)
 
 example : ∀ k ∈ [Key.name ['a', ' ', 'b'], Key.idx (-3), Key.name [], Key.name ['x']], k.pathSafe = true := by decide
+
+example : parsePath asciiW true (evalJsonPathJ1 asciiW [.name [], .idx (-1), .name ['a', ' ', 'b']]) = some [.name [], .idx (-1), .name ['a', ' ', 'b']] :=
+  C29_path_roundtrip_j1 asciiW asciiW_wordClass _ (by decide)
 
 /-! ### navigation -/
 
